@@ -58,7 +58,7 @@ func enumerateRegexRules(maxAtoms int) *nativeRules {
 func bundledRegexRules(limit int) *nativeRules {
 	nr := &nativeRules{}
 	seen := map[string]bool{}
-	for _, f := range []string{"/repo/testdata/easylist.txt", "/repo/testdata/adguard_sdn_filter.txt"} {
+	for _, f := range []string{repoDir + "/testdata/easylist.txt", repoDir + "/testdata/adguard_sdn_filter.txt"} {
 		fh, err := os.Open(f)
 		if err != nil {
 			continue
